@@ -33,14 +33,38 @@ func (c *c25Client) Addr() string { return c.addr }
 func (c *c25Client) Locations(d core.Digest) ([]string, error) {
 	c.p.contacted = append(c.p.contacted, c.addr)
 	if c.p.ok[c.addr] {
+		if c.p.replicas != nil {
+			return append([]string(nil), c.p.replicas...), nil
+		}
 		return []string{"loc-of-" + c.addr}, nil
 	}
 	return nil, errors.New("scripted failure")
 }
 
+func (c *c25Client) note() error {
+	c.p.requests = append(c.p.requests, c.addr)
+	if c.p.replicaOK[c.addr] {
+		return nil
+	}
+	return errors.New("scripted replica failure")
+}
+
+func (c *c25Client) Stat(namespace string, d core.Digest) (*core.BlobInfo, error) {
+	return core.NewBlobInfo(1), c.note()
+}
+func (c *c25Client) GetMetaInfo(namespace string, d core.Digest) (*core.MetaInfo, error) {
+	return nil, c.note()
+}
+func (c *c25Client) OverwriteMetaInfo(d core.Digest, pieceLength int64) error { return c.note() }
+func (c *c25Client) PrefetchBlob(namespace string, d core.Digest) error       { return c.note() }
+func (c *c25Client) CheckReadiness() error                                     { return c.note() }
+
 type c25Provider struct {
 	ok        map[string]bool
 	contacted []string
+	replicas  []string        // what a successful Locations call answers (nil: "loc-of-<addr>")
+	replicaOK map[string]bool // outcome of a request sent to a replica
+	requests  []string        // replicas contacted by the request phase, in order
 }
 
 func (p *c25Provider) Provide(addr string) blobclient.Client { return &c25Client{addr: addr, p: p} }
@@ -48,6 +72,10 @@ func (p *c25Provider) Provide(addr string) blobclient.Client { return &c25Client
 func c25Exec(t *verifh.T, c verifh.Case) {
 	d := core.DigestFixture()
 	for _, op := range c.Ops {
+		if len(op) == 7 && op[0] == "one" && op[1] == "request" {
+			c25Request(t, d, op)
+			continue
+		}
 		if len(op) != 4 || op[0] != "one" || (op[1] != "locations" && op[1] != "resolve") {
 			continue
 		}
@@ -90,6 +118,77 @@ func c25Exec(t *verifh.T, c verifh.Case) {
 		}
 		t.One(append([]string{"locations"}, op[2:]...), res, verifh.List(p.contacted))
 	}
+}
+
+// c25Request drives one blobclient.ClusterClient method: location lookup on the cluster, then the replicas.
+//   bloc one request <method> <hosts> <host=o|e,…> <replicas> <replica=o|e,…> => <ok|err|empty> <lookup hosts> <replicas contacted>
+func c25Request(t *verifh.T, d core.Digest, op []string) {
+	hosts := verifh.Unlist(op[3])
+	p := &c25Provider{ok: map[string]bool{}, replicaOK: map[string]bool{}, replicas: verifh.Unlist(op[5])}
+	if p.replicas == nil {
+		p.replicas = []string{}
+	}
+	for _, e := range verifh.Unlist(op[4]) {
+		if i := strings.LastIndex(e, "="); i >= 0 && e[i+1:] == "o" {
+			p.ok[e[:i]] = true
+		}
+	}
+	for _, e := range verifh.Unlist(op[6]) {
+		if i := strings.LastIndex(e, "="); i >= 0 && e[i+1:] == "o" {
+			p.replicaOK[e[:i]] = true
+		}
+	}
+	cc := blobclient.NewClusterClient(blobclient.NewClientResolver(p, c25List{hosts}))
+	var err error
+	pan := verifh.Protect(func() {
+		switch op[2] {
+		case "Stat":
+			_, err = cc.Stat("ns", d)
+		case "GetMetaInfo":
+			_, err = cc.GetMetaInfo("ns", d)
+		case "OverwriteMetaInfo":
+			err = cc.OverwriteMetaInfo(d, 4)
+		case "PrefetchBlob":
+			err = cc.PrefetchBlob("ns", d)
+		case "CheckReadiness":
+			err = cc.CheckReadiness()
+		default:
+			err = errors.New("unknown method")
+		}
+	})
+	if pan != "" {
+		t.One(op[1:], "panic", verifh.List(p.contacted), verifh.List(p.requests))
+		t.PropFail("panic", verifh.Str(pan))
+		return
+	}
+	res := "ok"
+	if err != nil {
+		res = "err"
+		if len(p.contacted) == 0 {
+			res = "empty"
+		}
+	}
+	t.One(op[1:], res, verifh.List(p.contacted), verifh.List(p.requests))
+}
+
+func c25RequestCase(method string, k int, okMask uint64, nrep int, repMask uint64, fromHosts bool) verifh.Case {
+	c := c25Case("locations", k, okMask)
+	var reps, routs []string
+	for i := 0; i < nrep; i++ {
+		h := fmt.Sprintf("r%02d:80", i)
+		if fromHosts && i < k {
+			h = fmt.Sprintf("o%02d:80", i)
+		}
+		reps = append(reps, h)
+		o := "e"
+		if repMask>>uint(i)&1 == 1 {
+			o = "o"
+		}
+		routs = append(routs, h+"="+o)
+	}
+	op := c.Ops[0]
+	c.Ops[0] = []string{"one", "request", method, op[2], op[3], verifh.List(reps), verifh.List(routs)}
+	return c
 }
 
 func c25Case(kind string, k int, okMask uint64) verifh.Case {
@@ -136,7 +235,26 @@ func TestVerif_C25Locations(t *testing.T) {
 			tr.Count("size_sweep", 4)
 		}
 	}
+	// blobclient.clusterClient request loops: every lookup pattern over <= 4 cluster hosts x every replica
+	// pattern over 1..3 replicas, for each method (the replicas are hosts of their own, or cluster hosts)
+	methods := []string{"Stat", "GetMetaInfo", "OverwriteMetaInfo", "PrefetchBlob", "CheckReadiness"}
+	for _, m := range methods {
+		for k := 0; k <= verifh.Scale(3, 4); k++ {
+			for lm := uint64(0); lm < 1<<uint(k); lm++ {
+				for nrep := 1; nrep <= 3; nrep++ {
+					for rm := uint64(0); rm < 1<<uint(nrep); rm++ {
+						c25Exec(tr, c25RequestCase(m, k, lm, nrep, rm, (lm+rm)%2 == 0))
+						tr.Count("request_patterns", 1)
+					}
+				}
+			}
+		}
+	}
 	r := verifh.NewRand(verifh.Seed(), "c25bloc")
+	for i := 0; i < verifh.Scale(1000, 50000); i++ {
+		c25Exec(tr, c25RequestCase(methods[r.Intn(len(methods))], r.Intn(41), r.Uint64()&r.Uint64(), 1+r.Intn(5), r.Uint64(), r.Chance(1, 2)))
+		tr.Count("request_random", 1)
+	}
 	for i := 0; i < verifh.Scale(3000, 200000); i++ {
 		k := r.Intn(41)
 		m := r.Uint64()
